@@ -126,7 +126,8 @@ def oracle(sources, sensors, agg, field):
 def run_case(c):
     import magpylib as magpy
 
-    sens = [mk_sensor(p, kd, h, c["sensL"], k) for k, (p, kd, h) in enumerate(c["sensors"])]
+    sLs = c["sensL"] if isinstance(c["sensL"], list) else [c["sensL"]] * len(c["sensors"])
+    sens = [mk_sensor(p, kd, h, sLs[k], k) for k, (p, kd, h) in enumerate(c["sensors"])]
     sources = mk_sources(c["sources"], c["srcL"])
     agg, field, form = c["agg"], c["field"], c["form"]
     fn = getattr(magpy, "get" + field)
@@ -180,11 +181,17 @@ def enumerate_cases(tier):
             if agg is None and len(shapes) > 1:
                 continue
             for sources in ("one", "two"):
-                for srcL in (1, 3):
-                    for sensL in (1, 3):
-                        for form in forms:
-                            cases.append({"sensors": [list(x) for x in sensors], "agg": agg, "sources": sources,
-                                          "srcL": srcL, "sensL": sensL, "form": form, "field": "B"})
+                # (source path length, sensor path length(s)): equal, static vs path, and sensor paths strictly between 1
+                # and the longest path of the call (own length 2 or 3 with a source path of 5; sensors of unequal lengths)
+                combos = [(1, 1), (1, 3), (3, 1), (3, 3)]
+                if agg in (None, "mean"):
+                    combos += [(5, 3), (5, 2)]
+                    if len(sensors) > 1:
+                        combos += [(1, [3, 2, 3][:len(sensors)]), (5, [2, 3, 1][:len(sensors)])]
+                for srcL, sensL in combos:
+                    for form in forms:
+                        cases.append({"sensors": [list(x) for x in sensors], "agg": agg, "sources": sources,
+                                      "srcL": srcL, "sensL": sensL, "form": form, "field": "B"})
 
     for c1 in cfgs:
         add([c1], AGGS, ("list", "method", "squeezed", "collection"))
@@ -203,6 +210,7 @@ def enumerate_cases(tier):
                           "sensL": 3, "form": "list", "field": "H"})
     if tier == "quick":
         cases = [c for c in cases if not (len(c["sensors"]) > 1 and c["sensL"] == 1 and c["srcL"] == 1)]
+        cases = [c for c in cases if not (len(c["sensors"]) == 3 and c["srcL"] == 5 and c["sources"] == "two")]
     return cases
 
 
@@ -213,7 +221,7 @@ def run(tier, seed):
     sig = set()
     for c, r in zip(cases, res):
         s0 = c["sensors"][0]
-        sig.add((len(c["sensors"]), tuple(map(tuple, c["sensors"])), c["agg"], c["sensL"], c["srcL"], c["sources"], c["form"]))
+        sig.add((len(c["sensors"]), tuple(map(tuple, c["sensors"])), c["agg"], str(c["sensL"]), c["srcL"], c["sources"], c["form"]))
         if r is None:
             continue
         if r.startswith("HARNESS"):
